@@ -107,6 +107,17 @@ def gen(rng, tier):
         below = [b for b in paths_for(d2) if b[:len(loc)] == loc and len(b) > len(loc) + 1]
         if below:
             yield {"mode": True, "ops": [["add", "/k9", 1], ["move", rfc6901_spell(loc + [i]), rfc6901_spell(rng.choice(below))]], "doc": doc}
+    # move / copy between locations whose pointer TEXTS are prefixes of one another without one being inside the other
+    pdocs = [{"a": 1, "ab": {"y": 0}, "o": {"k": [1], "k2": []}, "1": "x", "12": {"1": 2}}, [list(range(3))] * 1 + list(range(11)),
+             {"": {"": 1}, "x": {"": {}, "x": 1, "xx": {}}}]
+    for doc in pdocs:
+        locs = [rfc6901_spell(l) for l, _ in all_locs(doc) if l]
+        extra = ["/ab/y", "/ab/z", "/o/k2/-", "/o/k2/0", "/12/1", "/12/x", "/10/0", "/1/0", "/x/xx/x", "/x//a", "//x"]
+        for a in locs:
+            for b in locs + extra:
+                if b != a and b.startswith(a) and not b.startswith(a + "/"):
+                    yield {"mode": True, "ops": [["move", a, b]], "doc": doc}
+                    yield {"mode": True, "ops": [["copy", a, b], ["move", a, b]], "doc": doc}
     # `test` compares JSON values: a string is not the array of its characters, nor the reverse, at any depth
     tdocs = [{"x": ["a", "b"], "y": "ab", "e": [], "s": "", "n": [["a"], "a"], "o": {"k": ["x", "y"], "m": "xy"}, "one": ["a"], "c": "a"}]
     for doc in tdocs:
